@@ -20,7 +20,7 @@ TABLE = {
  },
  "C15": {
   "technique": "stateful (model-based) property testing: generated operation histories interpreted against the real objects and an explicit model, invariant checked after every step",
-  "text": "Histories of up to 40 operations (set succeeding/failing, follow, stop_following, update with succeeding/failing forwarding, followed-getter output changes, clock advance/error, set_delta, set_time) run against a recording settable, a ConstantGetter, a CommandPID, an unconnected and a connected Terminal (both settable halves), a TimeGetterFromGetter and a GetterFromHistory built with each of its four constructors over an echo history; after every operation the last request, the exact forwarded sequence, return values, the constant getter, the adapter value (history(now+offset) restamped now) and the time getter are compared with the model.",
+  "text": "Histories of up to 40 operations (set succeeding/failing, follow, stop_following, update with succeeding/failing forwarding, followed-getter output changes, clock advance/error, set_delta, set_time) run against a recording settable, a ConstantGetter, a CommandPID (set, and following a command getter while its own input is present/absent/erroring), an unconnected and a connected Terminal (both settable halves, following different getters), a TimeGetterFromGetter and a GetterFromHistory built with each of its four constructors over an echo history; after every operation the last request, the exact forwarded sequence, return values, the constant getter, the adapter value (history(now+offset) restamped now) and the time getter are compared with the model.",
   "note": "i64 clock values and offsets are kept within bounds where no sum overflows, as the quantifier states.",
  },
  "C20": {
